@@ -322,6 +322,7 @@ type c02Trans struct {
 }
 
 func runC02(c *Ctx) {
+	dropOrphanHelpers(c)
 	c.Clauses = []string{
 		"C02.a transition table of the product automaton (state x control fields) equals the VT500 reference with documented extensions, exhaustive over reachable product states x 133 symbols",
 		"C02.b exit-handler typestate: handler installed on every edge into osc/dcs-passthrough/apc and run-then-cleared on every edge out",
@@ -380,22 +381,34 @@ func runC02(c *Ctx) {
 			stateFieldType = st.Field(i).Type()
 		}
 	}
-	// the step function is the statically resolved function called in run whose result is a parser state
-	// (`p.state = step(r, p)`, or through a local: `next := step(r, p); p.state = next`)
-	ast.Inspect(runFn.Decl.Body, func(n ast.Node) bool {
-		call, ok := n.(*ast.CallExpr)
-		if !ok || stateFieldType == nil {
+	// the step function is the statically resolved function whose result becomes the parser state
+	// (`p.state = step(r, p)`, or through a local: `next := step(r, p); p.state = next`), called by the run loop:
+	// in run itself or in a function that only the run loop calls (the loop body extracted into a helper)
+	findStep := func(body ast.Node) {
+		ast.Inspect(body, func(n ast.Node) bool {
+			call, ok := n.(*ast.CallExpr)
+			if !ok || stateFieldType == nil {
+				return true
+			}
+			fn := calleeOf(info, call)
+			if fn == nil || decls[fn] == nil {
+				return true
+			}
+			if sig, _ := fn.Type().(*types.Signature); sig != nil && sig.Results().Len() == 1 && types.Identical(sig.Results().At(0).Type(), stateFieldType) {
+				step = fn
+			}
 			return true
+		})
+	}
+	findStep(runFn.Decl.Body)
+	if step == nil {
+		owned := ansiPrivateTo(c, runFn)
+		for _, fi := range c.P.FuncsIn("ansi") {
+			if step == nil && fi != runFn && owned[fi.Obj] && fi.Decl.Body != nil {
+				findStep(fi.Decl.Body)
+			}
 		}
-		fn := calleeOf(info, call)
-		if fn == nil || decls[fn] == nil {
-			return true
-		}
-		if sig, _ := fn.Type().(*types.Signature); sig != nil && sig.Results().Len() == 1 && types.Identical(sig.Results().At(0).Type(), stateFieldType) {
-			step = fn
-		}
-		return true
-	})
+	}
 	if step == nil || decls[step] == nil {
 		c.undecided("C02.a", "ansi.(*Parser).run/step", runFn.Decl.Pos(), "cannot find a call of a state-returning step function in run")
 		return
@@ -406,7 +419,28 @@ func runC02(c *Ctx) {
 	var timerLit ast.Node
 	var timerBody *ast.BlockStmt
 	var timerDecl *ast.FuncDecl
-	ast.Inspect(decls[step].Body, func(n ast.Node) bool {
+	// (searched in the step function and in the functions of the package it statically calls: the arming may
+	// have been moved into a helper)
+	var armBodies []ast.Node
+	{
+		seenFn := map[*types.Func]bool{step: true}
+		queue := []*types.Func{step}
+		for len(queue) > 0 && len(seenFn) < 64 {
+			cur := queue[0]
+			queue = queue[1:]
+			armBodies = append(armBodies, decls[cur].Body)
+			ast.Inspect(decls[cur].Body, func(n ast.Node) bool {
+				if call, ok := n.(*ast.CallExpr); ok {
+					if fn := calleeOf(info, call); fn != nil && decls[fn] != nil && decls[fn].Body != nil && !seenFn[fn] {
+						seenFn[fn] = true
+						queue = append(queue, fn)
+					}
+				}
+				return true
+			})
+		}
+	}
+	armVisit := func(n ast.Node) bool {
 		call, ok := n.(*ast.CallExpr)
 		if !ok {
 			return true
@@ -422,7 +456,12 @@ func runC02(c *Ctx) {
 			}
 		}
 		return true
-	})
+	}
+	for _, b := range armBodies {
+		if timerLit == nil {
+			ast.Inspect(b, armVisit)
+		}
+	}
 
 	curSym := 0
 	newMachine := func(s c02State) *Machine {
@@ -953,6 +992,24 @@ func c02ActionBodies(c *Ctx, decls map[*types.Func]*ast.FuncDecl, info *types.In
 						if id, ok := kv.Value.(*ast.Ident); ok && info.Uses[id] == param {
 							okFinal = true
 						}
+					}
+				}
+			}
+			return true
+		})
+		// ... or stored field by field: `x.Final = r` with x of the sequence type
+		ast.Inspect(fd.Body, func(n ast.Node) bool {
+			if as, ok := n.(*ast.AssignStmt); ok && len(as.Lhs) == len(as.Rhs) {
+				for i, l := range as.Lhs {
+					sel, ok := unparen(l).(*ast.SelectorExpr)
+					if !ok || sel.Sel.Name != "Final" {
+						continue
+					}
+					if nt, ok := info.TypeOf(sel.X).(*types.Named); !ok || nt.Obj().Name() != d.typ {
+						continue
+					}
+					if id, ok := unparen(as.Rhs[i]).(*ast.Ident); ok && info.Uses[id] == param {
+						okFinal = true
 					}
 				}
 			}
